@@ -9,9 +9,9 @@ NAMESPACE = 'VL.C01'
 LEAN_MODULES = ['VotelibProofs.Props.C01']
 GEN_MODULES = ['Divisor']
 REQUIRED = ['ha_cap', 'ha_total', 'ha_optimal', 'waiting_iff', 'ha_tie', 'ha_only_voted', 'haResult_cand', 'haResult_tie',
-            'd_hondt_ok', 'sainte_lague_ok', 'danish_ok', 'macau_ok', 'imperiali_ok', 'modified_first_ok', 'cfgOK_of_divisor', 'ha_strict_separation', 'ha_silent_tie_witness', 'ha_is_the_unique_solution', 'list_machine_refines']
+            'd_hondt_ok', 'sainte_lague_ok', 'danish_ok', 'macau_ok', 'imperiali_ok', 'modified_first_ok', 'divisor_values', 'cfgOK_of_divisor', 'ha_strict_separation', 'ha_silent_tie_witness', 'ha_is_the_unique_solution', 'list_machine_refines']
 REQUIRED_COUNTERS = ['tie_batch', 'cap_binds', 'zero_vote_party', 'prev_nonzero_non_dhondt', 'beyond_2^53',
-                     'modified_first_coef', 'multi_batch']
+                     'modified_first_coef', 'multi_batch', 'divisor_values', 'coef_as_decimal', 'coef_as_default', 'coef_as_fraction']
 RULE = ('1-6 parties; votes from tie-forcing small sets, zero-vote parties, and [0,10^30]; n_seats 1..12; the five exact '
         'built-in divisors and modified_first_coef wrappers (first coefficient <= divisor(1)); prev_gains with sum <= n '
         '(also for parties without votes); caps in [prev, prev+3] leaving one party eligible. Non-trivial = at least two '
@@ -25,17 +25,74 @@ NAMES = Names(prefix='p')
 DIVISORS = ['d_hondt', 'sainte_lague', 'imperiali', 'danish', 'macau']
 
 
-def _div(name, first):
+def _div(name, first, kind='fraction'):
+    """the implementation's divisor callable; `kind` says as which Python type the first coefficient is handed over
+    (modified_first_coef converts Decimal / float to an exact Fraction itself; 'default' omits the argument)"""
     import votelib.component.divisor as vd
     f = vd.get(name)
     if first is not None:
-        return vd.modified_first_coef(f, Fraction(first))
+        fr = Fraction(first)
+        if kind == 'default':
+            assert fr == Fraction(7, 5)
+            return vd.modified_first_coef(f)
+        if kind == 'decimal':
+            dec = Decimal(fr.numerator) / Decimal(fr.denominator)
+            assert Fraction(dec) == fr
+            return vd.modified_first_coef(f, dec)
+        if kind == 'int':
+            assert fr.denominator == 1
+            return vd.modified_first_coef(f, int(fr))
+        if kind == 'float':
+            assert Fraction(float(fr)) == fr
+            return vd.modified_first_coef(f, float(fr))
+        return vd.modified_first_coef(f, fr)
     return f
 
 
+_TEXTBOOK = {'d_hondt': lambda k: Fraction(k + 1), 'sainte_lague': lambda k: Fraction(2 * k + 1),
+             'imperiali': lambda k: Fraction(k, 2) + 1, 'danish': lambda k: Fraction(3 * k + 1),
+             'macau': lambda k: Fraction(2 ** k)}
+
+
+def _ref_div(name, first):
+    """the textbook divisor sequence, independent of votelib: what 'built-in divisor' means in C01"""
+    f = _TEXTBOOK[name]
+    if first is not None:
+        fc = Fraction(first)
+        return lambda k: f(k) if k > 0 else fc
+    return f
+
+
+def _dcase(case):
+    return _div(case['divisor'], case['first_coef'], case.get('first_kind', 'fraction'))
+
+
 def _mk(rng, votes, n, div, first, prev, caps, tags):
-    return {'op': 'ha', 'divisor': div, 'first_coef': first, 'votes': [[i, num_str(v)] for i, v in votes],
+    kind = 'fraction'
+    if first is not None:
+        fr = Fraction(first)
+        kinds = ['fraction', 'decimal']          # Decimal is the documented type of the coefficient
+        if fr == Fraction(7, 5):
+            kinds += ['default', 'default']
+        if fr.denominator == 1:
+            kinds.append('int')
+        if fr.denominator & (fr.denominator - 1) == 0:
+            kinds.append('float')                # dyadic: the float is the same number
+        if any(c not in '25' for c in _prime_factors(fr.denominator)):
+            kinds = [k for k in kinds if k != 'decimal']
+        kind = rng.choice(kinds)
+        tags.append('coef_as_' + kind)
+    return {'op': 'ha', 'divisor': div, 'first_coef': first, 'first_kind': kind, 'votes': [[i, num_str(v)] for i, v in votes],
             'n': n, 'prev': [[i, k] for i, k in prev], 'max': [[i, k] for i, k in caps], '_tags': list(tags)}
+
+
+def _prime_factors(n):
+    out, p = [], 2
+    while n > 1:
+        while n % p == 0:
+            out.append(str(p)); n //= p
+        p += 1
+    return out
 
 
 def _gen_one(rng, directed=None):
@@ -46,8 +103,8 @@ def _gen_one(rng, directed=None):
     tags = []
     if rng.random() < 0.15 or directed == 'mfc':
         # documented use: first coefficient raises the first divisor but stays <= divisor(1)
-        d1 = Fraction(_div(div, None)(1))
-        first = num_str(rng.choice([Fraction(14, 10), Fraction(142, 100), Fraction(1), Fraction(12, 10), d1]))
+        d1 = _TEXTBOOK[div](1)
+        first = num_str(rng.choice([Fraction(14, 10), Fraction(14, 10), Fraction(142, 100), Fraction(1), Fraction(12, 10), Fraction(3, 2), d1]))
         if Fraction(first) > d1:
             first = num_str(d1)
         tags.append('modified_first_coef')
@@ -93,7 +150,7 @@ def _eligible(case):
     votes = {i: Fraction(s) for i, s in case['votes']}
     prev = dict((i, k) for i, k in case['prev'])
     caps = dict((i, k) for i, k in case['max'])
-    d = _div(case['divisor'], case['first_coef'])
+    d = _ref_div(case['divisor'], case['first_coef'])
     n = case['n']
     return any(d(prev.get(c, 0)) > 0 and prev.get(c, 0) < caps.get(c, n) for c in votes)
 
@@ -104,7 +161,7 @@ def _post_tags(case):
     prev = dict((i, k) for i, k in case['prev'])
     caps = dict((i, k) for i, k in case['max'])
     n = case['n']
-    d = _div(case['divisor'], case['first_coef'])
+    d = _ref_div(case['divisor'], case['first_coef'])
     open_ = n - sum(prev.values())
     if open_ <= 0:
         return
@@ -149,6 +206,13 @@ def generate(rng, tier):
             c['_tags'].append('directed')
             cnt += 1
             yield c
+    for div in DIVISORS:
+        yield {'op': 'divisor', 'divisor': div, 'first_coef': None, 'upto': 40, '_tags': ['divisor_values']}
+        for first, kind in [('7/5', 'default'), ('7/5', 'decimal'), ('71/50', 'decimal'), ('6/5', 'decimal'), ('7/5', 'fraction'),
+                            ('1', 'int'), ('3/2', 'float'), ('3/2', 'decimal'), ('1', 'decimal')]:
+            if Fraction(first) <= _TEXTBOOK[div](1):
+                yield {'op': 'divisor', 'divisor': div, 'first_coef': first, 'first_kind': kind, 'upto': 12,
+                       '_tags': ['divisor_values', 'modified_first_coef', 'coef_as_' + kind]}
     if tier == 'thorough':
         for m in range(1, 5):
             for vals in itertools.product([0, 1, 2, 3], repeat=m):
@@ -175,20 +239,28 @@ def _args(case):
 
 def impl(case):
     import votelib.evaluate.proportional as vp
+    if case['op'] == 'divisor':
+        return guarded(lambda: [num_str(Fraction(_dcase(case)(k))) for k in range(case['upto'])])
     votes, prev, caps = _args(case)
-    ev = vp.HighestAverages(_div(case['divisor'], case['first_coef']))
+    ev = vp.HighestAverages(_dcase(case))
     return guarded(lambda: enc_distribution(ev.evaluate(votes, case['n'], prev_gains=prev, max_seats=caps), NAMES))
 
 
 def model_line(case):
     """both Lean models are validated: the pool machine ('ha') and the sorted-list machine ('ha_list'), alternating"""
     c = strip_case(case)
+    c.pop('first_kind', None)
+    if case['op'] == 'divisor':
+        return c
     if int(case_key(case), 16) % 2:
         c['op'] = 'ha_list'
     return c
 
 
 def compare(case, iobs, mobs):
+    if case['op'] == 'divisor':
+        a, b = canon(iobs), canon(mobs)
+        return None if a == b else f'impl={json.dumps(a)} model={json.dumps(b)}'
     a = canon(iobs)
     b = canon_dist(mobs)
     if a != b:
@@ -198,11 +270,17 @@ def compare(case, iobs, mobs):
 
 def oracle(case, obs):
     """the clauses of C01, recomputed with Fractions from the returned dictionary"""
+    if case['op'] == 'divisor':
+        if isinstance(obs, dict):
+            return [('unexpected_error', obs.get('err'))]
+        ref = _ref_div(case['divisor'], case['first_coef'])
+        bad = [(k, v) for k, v in enumerate(obs) if Fraction(v) != ref(k)]
+        return [('divisor_value', f'order {bad[0][0]}: {bad[0][1]} instead of {ref(bad[0][0])}')] if bad else []
     votes = {i: Fraction(s) for i, s in case['votes']}
     prev = dict((i, k) for i, k in case['prev'])
     caps = dict((i, k) for i, k in case['max'])
     n = case['n']
-    d = lambda k: Fraction(_div(case['divisor'], case['first_coef'])(k))   # noqa
+    d = _ref_div(case['divisor'], case['first_coef'])
     if isinstance(obs, dict):
         return [('unexpected_error', obs.get('err'))]
     out = []
@@ -273,10 +351,16 @@ def oracle(case, obs):
 
 
 def nontrivial(case, obs):
+    if case['op'] == 'divisor':
+        return not isinstance(obs, dict)
     return len(case['votes']) >= 2 and not isinstance(obs, dict)
 
 
 def shrink_candidates(case):
+    if case['op'] == 'divisor':
+        if case['upto'] > 1:
+            yield dict(case, upto=case['upto'] - 1)
+        return
     vs = case['votes']
     if len(vs) > 1:
         for i in range(len(vs)):
@@ -298,8 +382,10 @@ def shrink_candidates(case):
 
 
 def describe(case):
+    fc = f", first_coef={case['first_coef']} given as {case.get('first_kind', 'fraction')}" if case['first_coef'] else ''
+    if case['op'] == 'divisor':
+        return f"divisor {case['divisor']!r}{fc} at orders 0..{case['upto'] - 1}"
     votes, prev, caps = _args(case)
-    fc = f", first_coef={case['first_coef']}" if case['first_coef'] else ''
     return f"HighestAverages({case['divisor']!r}{fc}).evaluate({votes!r}, {case['n']}, prev_gains={prev!r}, max_seats={caps!r})"
 
 
@@ -313,8 +399,9 @@ LEVEL_NOTE = ('Trusted: Lean kernel + standard axioms; translate.py; the corresp
 
 
 def signature(case, clause):
+    if case['op'] == 'divisor':
+        return f"divisor:{clause}"
     if clause == 'tie_resolved_silently' and case.get('first_coef') is not None:
-        import votelib.component.divisor as vd
-        if Fraction(case['first_coef']) == Fraction(vd.get(case['divisor'])(1)):
+        if Fraction(case['first_coef']) == _TEXTBOOK[case['divisor']](1):
             return 'ha:tie_resolved_silently:first_coef_equals_second_divisor'
     return f"ha:{clause}"
